@@ -62,6 +62,50 @@ def san_summary(out):
     return m.group(1) if m else out[-300:]
 
 
+def judge_trace_small(ctx, path, max_lines=6000, workers=8):
+    """Like vlib.judge_trace, but with chunks of <= max_lines lines (cut at history boundaries), a 2 GB
+    heap per TLC process and at most `workers` processes at a time: the read-back makes C19 events
+    large, and 16 TLC processes with 6 GB heaps each were killed by the OOM killer on a busy box."""
+    lines = open(path).read().splitlines()
+    chunks = []
+    cur, start = [], 0
+    for i, x in enumerate(lines):
+        if len(cur) >= max_lines and x.startswith('{"e":"reset"'):
+            chunks.append((start, cur))
+            cur, start = [], i
+        cur.append(x)
+    if cur:
+        chunks.append((start, cur))
+
+    def one(k):
+        first, ls = chunks[k]
+        p = "%s.j%d" % (path, k)
+        with open(p, "w") as f:
+            f.write("\n".join(ls) + "\n")
+        try:
+            r = vlib.tlc("LogTrace", "LogTrace.cfg", workers=1, env={"TRACE": p}, timeout=1800, xmx="2g", tag="LogTrace_j")
+        finally:
+            os.unlink(p)
+        v = vlib._verdict_lines(r.out)
+        bad = []
+        if "VERDICT" in v:
+            for b in v["VERDICT"][-1]["bad"]:
+                b = dict(b)
+                b["l"] += first
+                bad.append(b)
+        elif "STUCK" in v:
+            bad.append({"l": int(v["STUCK"][-1]) + first, "op": "?", "why": ["no-action-explains-event"]})
+        else:
+            raise vlib.Infra("trace judge gave no verdict on chunk %d of %s:\n%s" % (k, path, "\n".join(r.out.splitlines()[-40:])))
+        return bad, r.generated
+    res = vlib.parallel(one, list(range(len(chunks))), workers=workers)
+    bad = []
+    for b, g in res:
+        bad += b
+        ctx.extra["trace_states"] = ctx.extra.get("trace_states", 0) + g
+    return sorted(bad, key=lambda b: b["l"])
+
+
 def judge_seq(ctx, path, what, rc, out):
     lines, tail = vlib.check_trace_file(path)
     lines = [x for x in lines if not x.startswith('{"e":"crash"')]
@@ -84,7 +128,7 @@ def judge_seq(ctx, path, what, rc, out):
             f.write("\n".join(lines) + ("\n" if lines else ""))
     if not lines:
         return []
-    bad = vlib.judge_trace(ctx, "LogTrace", "LogTrace.cfg", path)
+    bad = judge_trace_small(ctx, path)
     ctx.evaluations += len(lines)
     for b in bad:
         if "HARNESS-PRECONDITION" in b["why"] or b["op"] == "?":
@@ -120,7 +164,7 @@ def count_seq(ctx, lines):
 
 def tlc_conc(path):
     r = vlib.tlc("LogTrace", "LogTraceConc.cfg", workers=1, dfs=True, env={"TRACE": path}, timeout=1500,
-                 tag="LogTrace_c")
+                 tag="LogTrace_c", xmx="2g")
     v = vlib._verdict_lines(r.out)
     if "STUCK" in v:
         return int(v["STUCK"][-1]), r
@@ -146,7 +190,7 @@ def judge_conc(ctx, path, what, extra_payload):
     if not lines:
         return 0, 0
     runs = split_runs(lines)
-    nch = max(1, min(vlib.NCPU, len(runs)))
+    nch = max(1, min(8, len(runs)))
     groups = [runs[i::nch] for i in range(nch)]
     states = [0]
 
@@ -327,7 +371,7 @@ def run(ctx):
                 raise vlib.Infra("coverage: actions never taken in %s: %s" % (cfg, dead))
             ctx.extra.setdefault("action_coverage", {})[cfg] = {a: t for a, (t, _) in cov.items()}
     if thorough:
-        for mod, cfg in (("LogContext", "MC_LogContext_big.cfg"), ("LogContext", "MC_LogContext_d3.cfg"),
+        for mod, cfg in (("LogContext", "MC_LogContext_d3.cfg"),
                          ("LogContextConc", "MC_LogContextConc_big.cfg"), ("LogContextConc", "MC_LogContextConc_3t.cfg"),
                          ("LogContextConc", "MC_LogContextConc_3t211.cfg")):
             vlib.tlc_mc(ctx, mod, cfg, timeout=3000)
